@@ -222,7 +222,7 @@ def run_property(prop_id: str, mod, tier: str, seed: int, explain: Optional[str]
             loc = f"{r.file}:{r.line}" if r.file else "?"
             if k is not None:
                 r.known = k
-                out(f"KNOWN-FINDING: property={prop_id} {r.rule} {r.instance}: {k.get('what', r.detail)}")
+                out(f"KNOWN-FINDING: property={prop_id} {r.rule} {r.instance}: {str(k.get('what', r.detail))[:400]}")
                 continue
             nviol += 1
             path = os.path.join(REPLAY_DIR, f"{prop_id}-{nviol}.json")
